@@ -24,7 +24,8 @@ From JV Require Import Lib.Base.
 (* ---- programs --------------------------------------------------------------------------- *)
 Inductive dflt := DReq | DVal (k : N) (z : Z).   (* k: kind of the literal (0 int, 1 float, 2 str) *)
 Record sparam := { sp_name : str; sp_ty : N; sp_def : dflt }.
-Inductive callee := KSuper | KFunc (i : nat) | KClass (i : nat) | KMeth (m : nat).
+Inductive callee := KSuper | KFunc (i : nat) | KClass (i : nat) | KMeth (m : nat)
+                  | KSuperOf (c : nat).   (* super(C<c>, self).__init__(..): continue after C<c> in the MRO *)
 Inductive stmt :=
 | SPG (pop : bool) (n : str) (k : N) (z : Z)            (* v = kwargs.pop/get("n", literal) *)
 | SCall (c : callee) (npos : nat) (given : list str).   (* callee(1,..,npos, g=.. for g in given, **kwargs) *)
@@ -117,6 +118,14 @@ Fixpoint find_def (P : prog) (mn : option nat) (l : list nat) (pos : nat) : opti
 Definition next_definer (P : prog) (mn : option nat) (classes : list nat) (start : nat) :=
   find_def P mn (skipn start classes) start.
 
+(* position of class c in the MRO, at or after position start (ast_is_supported_super_call searches
+   classes[idx:]; the interpreter searches the whole MRO of type(self)) *)
+Fixpoint pos_from (c : nat) (l : list nat) (pos start : nat) : option nat :=
+  match l with
+  | [] => None
+  | x :: r => if (start <=? pos) && Nat.eqb x c then Some pos else pos_from c r (S pos) start
+  end.
+
 (* ---- frames: a callable being analysed / executed, with its MRO context ---------------------- *)
 Record frame := { fr_fn : fn; fr_mn : option nat; fr_ctx : option (list nat * nat) }.
 
@@ -151,6 +160,21 @@ Definition callee_frame (md : mode) (fuel : nat) (P : prog) (fr : frame) (k : ca
           match next_definer P (fr_mn fr) mro (S idx) with
           | None => Ok None
           | Some (num, f) => Ok (Some {| fr_fn := f; fr_mn := fr_mn fr; fr_ctx := Some (mro, num) |})
+          end
+      end
+  | KSuperOf c =>
+      match fr_ctx fr with
+      | None => Ok None
+      | Some (mro, idx) =>
+          match pos_from c mro 0 (match md with Resolver => idx | Interp => 0 end) with
+          | None => match md with Resolver => Ok None   (* "unsupported super parameters": nothing resolved *)
+                                | Interp => Err EBad    (* TypeError: obj must be an instance or subtype of type *)
+                    end
+          | Some p =>
+              match next_definer P (fr_mn fr) mro (S p) with
+              | None => Ok None
+              | Some (num, f) => Ok (Some {| fr_fn := f; fr_mn := fr_mn fr; fr_ctx := Some (mro, num) |})
+              end
           end
       end
   | KMeth m =>
